@@ -21,6 +21,7 @@ func init() {
 	nd.Register("VerifC18Syntax", VerifC18Syntax)
 	nd.Register("VerifC18Long", VerifC18Long)
 	nd.Register("VerifC18Append", VerifC18Append)
+	nd.Register("VerifC18Unauth", VerifC18Unauth)
 }
 
 // c18tok is one string token found by the scanner.
@@ -453,3 +454,44 @@ func VerifC18Long() { VerifC18Syntax() }
 
 // VerifC18Append: the same harness with cmd=6 and one APPEND size per run.
 func VerifC18Append() { VerifC18Syntax() }
+
+// VerifC18Unauth: UTF8=ACCEPT enabled, then UNAUTHENTICATE (which resets the enabled
+// extensions, RFC 8437): afterwards 8-bit strings must again travel as literals on a
+// server without IMAP4rev2.
+func VerifC18Unauth() {
+	vc := &vcConn{silent: true}
+	c := vcDirect(vc, imap.ConnStateAuthenticated, nil)
+	c.caps = imap.CapSet{imap.CapIMAP4rev1: {}, imap.CapUTF8Accept: {}, imap.CapUnauthenticate: {}}
+	close(c.greetingCh)
+	c.enabled[imap.CapUTF8Accept] = struct{}{}
+	un := c.Unauthenticate()
+	ok := nd.Bool()
+	if ok {
+		vc.in = append(vc.in, "T1 OK [CAPABILITY IMAP4rev1 UTF8=ACCEPT UNAUTHENTICATE] bye\r\n"...)
+	} else {
+		vc.in = append(vc.in, "T1 NO no\r\n"...)
+	}
+	nd.Assert(c.readResponse() == nil, "client-rejects-conformant-server-line")
+	_, _ = vcDone(un)
+	before := len(vc.out)
+	b := nd.Byte()
+	nd.Assume(b >= 0x80)
+	done := make(chan struct{})
+	go func() {
+		defer nd.Recover()
+		defer close(done)
+		c.Login("u", string([]byte{'p', b}))
+	}()
+	for i := 0; i < 400 && !c18isDone(done) && c18pending(c) == 0; i++ {
+		time.Sleep(time.Millisecond)
+	}
+	for i := 0; i < 3; i++ {
+		time.Sleep(time.Millisecond)
+	}
+	// UTF8=ACCEPT is still in force only if UNAUTHENTICATE was refused
+	bad, _, _, _ := c18scan(vc.out[before:], !ok, false, false)
+	if bad != "" {
+		nd.Fail(bad)
+	}
+	nd.Reach("unauthenticated")
+}
